@@ -71,6 +71,14 @@ def resolveLevel (x : Name) : Chain → Option Nat
     | some _ => some 0
     | none => (resolveLevel x ρ).map (· + 1)
 
+/-- the static view of a chain: the list of binder sets, innermost first -/
+def Frame.names (fr : Frame) : List Name := fr.map Prod.fst
+
+/-- `resolve` on binder sets: the index of the innermost level that binds `x` (`none`: global) -/
+def resolveIdx (x : Name) : List (List Name) → Option Nat
+  | [] => none
+  | b :: bs => if x ∈ b then some 0 else (resolveIdx x bs).map (· + 1)
+
 /-! ## the interpreter -/
 
 abbrev M := ExceptT Err (StateM St)
